@@ -162,6 +162,13 @@ func (b *Backends) backendShardChanged(shard int) {
 	b.changedShards[shard] = true
 }
 
+// AllShardsChanged flags every shard, the empty ones included, as changed
+func (b *Backends) AllShardsChanged() {
+	for i := range b.shards {
+		b.changedShards[i] = true
+	}
+}
+
 // ChangedShards ...
 func (b *Backends) ChangedShards() []int {
 	changed := []int{}
